@@ -111,6 +111,10 @@ static int32_t traverse_schema_recursive(
     /* Group node - recursively process children */
     int32_t next_idx = element_idx + 1;
     for (int32_t child = 0; child < elem->num_children; child++) {
+        /* num_children comes from the file: never iterate past the element list */
+        if (next_idx >= ctx->num_elements) {
+            break;
+        }
         next_idx = traverse_schema_recursive(ctx, next_idx, this_def, this_rep);
     }
 
@@ -163,6 +167,9 @@ static void compute_levels(
     const parquet_schema_element_t* root = &elements[0];
     int32_t next_idx = 1;
     for (int32_t child = 0; child < root->num_children; child++) {
+        if (next_idx >= num_elements) {
+            break;
+        }
         next_idx = traverse_schema_recursive(&ctx, next_idx, 0, 0);
     }
 }
